@@ -114,3 +114,128 @@ contract(
              "a-bare-name-is-never-looked-up-in-the-current-directory": "implies('/' not in name, result == along_path(name, env, check_executable, use_pathext))"},
     from_property="never a file from the current directory; a name containing a path separator refers only to that path",
 )
+
+
+# ---- the mtime-keyed directory cache behind `name in commands_cache`, iteration and completion ------------------------------
+# Ghost world (constant during one call): statable(p) - os.path.getmtime(p) succeeds; mtime(p) - its answer; listing(p) - what
+# executables_in(p) yields now.  VALID(cache): an entry whose recorded mtime equals the directory's current mtime holds the current
+# listing - the design assumption of an mtime-keyed cache (a change of the directory's CONTENT changes its mtime; see the known
+# finding: a chmod of a file does not), required on entry and re-established on exit.
+def _getmtime(R, args, kw, node, frame, recv):
+    """os.path.getmtime(p): OSError when the path cannot be stat'ed, else the ghost mtime(p)"""
+    ok = R.ctx.uf_apply(R, "statable", [args[0]], Bool)
+    if not R.decide(ok.z, R.lab(node, "getmtime-ok")):
+        raise PyRaise(Exc("OSError", tag="os.path.getmtime"))
+    return R.ctx.uf_apply(R, "mtime", [args[0]], Real)
+
+
+from pyvc.core import PyRaise, Exc  # noqa: E402
+
+CMDS = Rec("_Commands", mtime=Real, cmds=Seq(Str))
+CCT = Obj("CommandsCache", _paths_cache=Dict(Str, CMDS), _paths_order=Union(NoneT, Seq(Str)), cache_file=Str, env=Obj("Env"))
+PC_EXT = {
+    "os.path.getmtime": Ext(model=_getmtime, note="ghost file system: raises OSError exactly when the path cannot be stat'ed, else its current mtime"),
+    "statable": Ext(ret=Bool, pure=True, uf="statable", args=[Str]), "mtime": Ext(ret=Real, pure=True, uf="mtime", args=[Str]),
+    "executables_in": Ext(ret=Seq(Str), pure=True, uf="listing", note="the directory's current listing (its own contract: _yield_accessible_unix_file_names)"),
+    "listing": Ext(ret=Seq(Str), pure=True, uf="listing", args=[Str]),
+    "tuple": Ext(ret=Seq(Str), pure=True, uf="astuple", ensures=["result == a0"], note="tuple(xs) holds the elements of xs in order"),
+    "_Commands": Ext(ret=CMDS, pure=True, uf="mk_commands", ensures=["result.mtime == a0", "result.cmds == a1"], note="NamedTuple constructor (mtime, cmds)"),
+    'Env.get("ENABLE_COMMANDS_CACHE")': Ext(ret=Bool, pure=True, uf="cache_enabled"),
+    "math.isclose": Ext(ret=Bool, pure=True, ensures=["implies(a0 == a1, result)"], note="library fact: equal numbers are close (nothing is assumed about unequal ones)"),
+}
+VALID = "forall_str(lambda p: implies(p in %s and %s[p].mtime == mtime(p), %s[p].cmds == listing(p)))"
+PC = "self._paths_cache"
+contract(
+    CC + "CommandsCache._update_paths_cache", "C08", params=dict(self=CCT, paths=Seq(Str)), externals=PC_EXT, returns=Bool, config={"no_memo": True},
+    locals={"updated": Bool, "modified_time": Real},
+    requires={"no-persistent-cache-file": 'self.cache_file == ""',
+              "an-entry-with-the-directory's-current-mtime-holds-its-current-listing": VALID % (PC, PC, PC)},
+    modifies=[PC, "self._paths_order"],
+    loops={"for#1": dict(havoc_only=[], havoc_exprs=[PC], invariant={
+        "every-statable-directory-so-far-has-an-entry-with-its-CURRENT-mtime":
+            "forall(lambda k: implies(statable(paths[k]), paths[k] in %s and %s[paths[k]].mtime == mtime(paths[k])), 0, _i)" % (PC, PC),
+        "entries-stay-valid": VALID % (PC, PC, PC),
+        "not-updated-means-untouched": "implies(not updated, %s == old(%s) and old(self._paths_order) == paths)" % (PC, PC),
+        "order-recorded": "self._paths_order == paths"})},
+    ensures={
+        "every-statable-$PATH-directory-is-listed-as-it-is-NOW":
+            "forall(lambda k: implies(statable(paths[k]), paths[k] in %s and %s[paths[k]].cmds == listing(paths[k])), 0, len(paths))" % (PC, PC),
+        "a-kept-entry-carries-the-directory's-current-mtime-exactly":
+            "forall(lambda k: implies(statable(paths[k]), %s[paths[k]].mtime == mtime(paths[k])), 0, len(paths))" % PC,
+        "reporting-no-change-means-nothing-changed": "implies(not result, %s == old(%s) and old(self._paths_order) == paths)" % (PC, PC),
+        "the-$PATH-order-is-recorded": "self._paths_order == paths",
+        "entries-stay-valid": VALID % (PC, PC, PC)},
+    assumptions=["the opt-in persistent cache file ($COMMANDS_CACHE_SAVE_INTERMEDIATE) is off",
+                 "mtime-keyed design: a change of a directory's content changes its mtime (chmod of a file does not: recorded known finding)"],
+    from_property="every view xonsh offers of the available commands (`name in` checks, completion listing) agrees with the file system after any sequence of "
+                  "files appearing, disappearing (a directory is re-listed unless its recorded mtime EQUALS the current one)",
+)
+
+
+# ---- the merged table (`name in commands_cache`, iteration, completion) is rebuilt whenever anything it was built from changed --------
+# Ghost: names(aliases) = frozenset(aliases); hash is ASSUMED collision-free between the recorded and the current alias-name set - the real code
+# decides "aliases changed" by that hash; merged(listings, order, names) is WHAT the rebuild loops compute (their content is covered by
+# the bounded histories only).  TABLE(self): the table held is the merge of the recorded listings, the recorded order and the alias
+# names whose hash is recorded.
+NAMES = Opaque("names")
+TABLE = Opaque("table")
+CCT2 = Obj("CommandsCache", _paths_cache=Dict(Str, CMDS), _paths_order=Union(NoneT, Seq(Str)), cache_file=Str, env=Obj("Env"),
+           aliases=Opaque("aliases"), _alias_checksum=Union(NoneT, Int), _cmds_cache=TABLE)
+AL_EXT = {
+    "frozenset": Ext(ret=NAMES, pure=True, uf="names"), "names": Ext(ret=NAMES, pure=True, uf="names"),
+    "hash": Ext(ret=Int, pure=True, uf="hash_of"), "hash_of": Ext(ret=Int, pure=True, uf="hash_of", args=[NAMES]),
+}
+contract(
+    CC + "CommandsCache._update_aliases_cache", "C08", params=dict(self=CCT2), externals=AL_EXT, returns=Bool, config={"no_memo": True},
+    modifies=["self._alias_checksum"],
+    ensures={"records-the-current-alias-names": "self._alias_checksum == hash_of(names(self.aliases))",
+             "reports-a-change-exactly-when-the-recorded-hash-differs": "result == (old(self._alias_checksum) != hash_of(names(self.aliases)))"},
+    from_property="every view xonsh offers of the available commands agrees ... (aliases are part of the `name in` view)",
+)
+FRESH_T = "forall(lambda k: implies(statable(%(P)s[k]), %(P)s[k] in %(C)s and %(C)s[%(P)s[k]].cmds == listing(%(P)s[k])), 0, len(%(P)s))"
+FRESH = FRESH_T % dict(P="paths", C=PC)
+UAC_EXT = dict(PC_EXT)
+UAC_EXT.update(AL_EXT)
+contract(
+    CC + "CommandsCache._update_and_check_changes", "C08", params=dict(self=CCT2, paths=Seq(Str)), externals=UAC_EXT, returns=Bool, config={"no_memo": True},
+    calls={"CommandsCache._update_aliases_cache": CC + "CommandsCache._update_aliases_cache", "CommandsCache._update_paths_cache": CC + "CommandsCache._update_paths_cache"},
+    requires={"no-persistent-cache-file": 'self.cache_file == ""',
+              "an-entry-with-the-directory's-current-mtime-holds-its-current-listing": VALID % (PC, PC, PC)},
+    modifies=[PC, "self._paths_order", "self._alias_checksum"],
+    ensures={"BOTH-updates-ran-whatever-the-first-one-said": "self._alias_checksum == hash_of(names(self.aliases)) and self._paths_order == paths",
+             "every-statable-$PATH-directory-is-listed-as-it-is-NOW": FRESH,
+             "reporting-no-change-means-nothing-the-table-was-built-from-changed":
+                 "implies(not result, %s == old(%s) and old(self._paths_order) == paths and old(self._alias_checksum) == hash_of(names(self.aliases)))" % (PC, PC),
+             "entries-stay-valid": VALID % (PC, PC, PC)},
+    from_property="This stays true after any sequence of $PATH edits and of files appearing, disappearing",
+)
+MERGED_NOW = "merged(%s, paths_of(self.env), names(self.aliases))" % PC
+UC_EXT = dict(UAC_EXT)
+UC_EXT.update({
+    "get_paths": Ext(ret=Seq(Str), pure=True, uf="paths_of", note="the ordered, de-duplicated, existing $PATH directories, last first (clear_paths: its own contract)"),
+    "paths_of": Ext(ret=Seq(Str), pure=True, uf="paths_of"),
+    "merged": Ext(ret=TABLE, pure=True, uf="merged", args=[VMap(Str, CMDS), Seq(Str), NAMES], note="ghost: what the rebuild loops compute from listings, order and alias names"),
+    "CacheDict": Ext(ret=TABLE),
+})
+contract(
+    CC + "CommandsCache.update_cache", "C08", params=dict(self=CCT2), globals={"NREC": NAMES}, externals=UC_EXT, returns=TABLE, config={"no_memo": True},
+    locals={"all_cmds": TABLE, "paths": Seq(Str)},
+    calls={"CommandsCache._update_and_check_changes": CC + "CommandsCache._update_and_check_changes"},
+    requires={"no-persistent-cache-file": 'self.cache_file == ""',
+              "an-entry-with-the-directory's-current-mtime-holds-its-current-listing": VALID % (PC, PC, PC),
+              "the-table-held-is-the-merge-of-what-is-recorded (NREC: the alias names whose hash is recorded)":
+                  "implies(self._paths_order is not None and self._alias_checksum is not None, "
+                  "self._alias_checksum == hash_of(NREC) and self._cmds_cache == merged(%s, self._paths_order, NREC))" % PC},
+    axioms={"no-hash-collision-between-the-recorded-and-the-current-alias-names":
+            "implies(hash_of(NREC) == hash_of(names(self.aliases)), NREC == names(self.aliases))"},
+    modifies=[PC, "self._paths_order", "self._alias_checksum", "self._cmds_cache"],
+    abstract=[dict(line_contains="for cmd, path in self._iter_binaries(paths):", may_raise=False, havoc=[], reason="rebuild loop 1 (content: bounded histories)"),
+              dict(line_contains="for cmd in self.aliases:", may_raise=False, havoc=[],
+                   ensures=["all_cmds == " + MERGED_NOW], reason="rebuild loop 2; DEFINES merged(listings, order, alias names) as what the two loops compute")],
+    ensures={"the-table-handed-out-is-the-merge-of-the-CURRENT-listings-order-and-aliases": "result == " + MERGED_NOW + " and self._cmds_cache == result",
+             "every-statable-$PATH-directory-is-listed-as-it-is-NOW": FRESH_T % dict(P="paths_of(self.env)", C=PC),
+             "what-is-recorded-is-what-the-table-was-built-from":
+                 "self._paths_order == paths_of(self.env) and self._alias_checksum == hash_of(names(self.aliases))"},
+    assumptions=["no hash collision between alias-name sets", "what the two rebuild loops compute is the ghost function merged (bounded histories only)"],
+    from_property="never goes stale: every view (`name in`, iteration, completion) is computed from a table that is rebuilt whenever a listing, the $PATH order or the alias names changed",
+)
